@@ -146,7 +146,7 @@ CHECKS = {
         "assumptions": ["one read never carries bytes of two server messages (quantifier; enforced by read barriers in the model)",
                         "replies are single-chunk and free of the C02 known shapes"],
         "subs": [
-            {"name": "ownreply", "test": "TestOwnReply", "quick": 1200, "thorough": 10000, "shards": 16},
+            {"name": "ownreply", "test": "TestOwnReply", "quick": 900, "thorough": 10000, "shards": 16},
         ],
     },
     "C07": {
